@@ -42,6 +42,12 @@ Check (C01.C01_query : forall fp o sizes inp bs i infl c vs s e,
   bw_write fp o sizes inp = Ok bs \/ bw_write_multipass fp o sizes inp = Ok bs ->
   read_info bs = Ok i -> In (c, vs) (runs inp) ->
   bw_interval infl bs i c s e = Ok (clip_filter s e vs)).
+Check (C01.C01_query_narrow : forall fp o sizes inp bs i infl c vs s e s' e',
+  opts_ok o -> input_ok sizes inp -> Nlen bs < U64 ->
+  bw_write fp o sizes inp = Ok bs \/ bw_write_multipass fp o sizes inp = Ok bs ->
+  read_info bs = Ok i -> In (c, vs) (runs inp) -> s' <= s -> e <= e' -> s < e ->
+  exists wide, bw_interval infl bs i c s' e' = Ok wide
+    /\ bw_interval infl bs i c s e = Ok (clip_filter s e wide)).
 Check (C01.C01_roundtrip : forall fp o sizes inp bs i infl c vs len,
   opts_ok o -> input_ok sizes inp -> Nlen bs < U64 ->
   bw_write fp o sizes inp = Ok bs ->
